@@ -192,7 +192,29 @@ func (tr *FnCtx) cur(st *State, c Comp) string {
 	if s, ok := st.Comps[c.Name]; ok {
 		return s
 	}
-	return tr.declare(fmt.Sprintf("%s@g%d", c.Name, st.Gen), c.Sort)
+	name := fmt.Sprintf("%s@g%d", c.Name, st.Gen)
+	if tr.decl[sym(name)] {
+		return sym(name)
+	}
+	s := tr.declare(name, c.Sort)
+	tr.mapDefaultAxiom(st, c, s)
+	return s
+}
+
+// mapDefaultAxiom: map value components hold the zero value for absent keys (normal form of
+// the representation; every operation of the model preserves it).
+func (tr *FnCtx) mapDefaultAxiom(st *State, c Comp, s string) {
+	if !strings.HasPrefix(c.Name, "MV.") {
+		return
+	}
+	k := strings.Index(c.Name, "~")
+	if k < 0 {
+		return
+	}
+	dc := Comp{"MD." + c.Name[3:k], "(Array Int (Array Int Bool))"}
+	d := tr.cur(st, dc)
+	z := zeroOf(strings.TrimSuffix(strings.TrimPrefix(c.Sort, "(Array Int (Array Int "), "))"))
+	tr.emit(fmt.Sprintf("(assert (forall ((m Int) (k Int)) (! (=> (not (select (select %s m) k)) (= (select (select %s m) k) %s)) :pattern ((select (select %s m) k)))))", d, s, z, s))
 }
 
 func (tr *FnCtx) set(st *State, c Comp, term string) {
@@ -207,6 +229,7 @@ func (tr *FnCtx) havocComp(st *State, c Comp) string {
 	tr.regComp(c)
 	s := tr.freshConst(c.Name+"@h", c.Sort)
 	st.Comps[c.Name] = s
+	tr.mapDefaultAxiom(st, c, s)
 	return s
 }
 
@@ -460,6 +483,10 @@ func (tr *FnCtx) publish(st *State, v *Val) {
 
 func (tr *FnCtx) elem(base, idx string) string { return "(elem " + base + " " + idx + ")" }
 
+// at is the address of element i of a slice with the given backing and offset: elem(base, off+i).
+// It is a separate function symbol so that quantified invariants trigger on (at b o i) without arithmetic in the pattern.
+func (tr *FnCtx) at(base, off, idx string) string { return "(at " + base + " " + off + " " + idx + ")" }
+
 // ---------------------------------------------------------------- constants
 
 func (tr *FnCtx) strConst(s string) string {
@@ -548,6 +575,8 @@ const preamble = `(set-option :produce-models true)
 (declare-fun elemB (Int) Int)
 (declare-fun elemI (Int) Int)
 (assert (forall ((b Int) (i Int)) (! (and (= (elemB (elem b i)) b) (= (elemI (elem b i)) i) (< (elem b i) 0)) :pattern ((elem b i)))))
+(declare-fun at (Int Int Int) Int)
+(assert (forall ((b Int) (o Int) (i Int)) (! (= (at b o i) (elem b (+ o i))) :pattern ((at b o i)))))
 (declare-fun card ((Array Int Bool)) Int)
 (declare-fun str_lt (Int Int) Bool)
 (declare-fun str_cat (Int Int) Int)
@@ -1027,14 +1056,14 @@ func (tr *FnCtx) indexAddr(st *State, x *ssa.IndexAddr) *Val {
 			return tr.freshVal(x.Type(), "idxaddr")
 		}
 		tr.safety = append(tr.safety, accessSite{tr.guard, and("(<= 0 "+idx+")", "(< "+idx+" "+base.A[2]+")"), fmt.Sprintf("index out of range %s[%s]", x.X.Name(), x.Index.Name())})
-		return &Val{T: x.Type(), A: []string{tr.elem(base.A[0], add(base.A[1], idx))}}
+		return &Val{T: x.Type(), A: []string{tr.at(base.A[0], base.A[1], idx)}}
 	case *types.Pointer: // pointer to array
 		if base.Loc != nil {
 			tr.note("IndexAddr on non-first-class array pointer")
 			return tr.freshVal(x.Type(), "idxaddr")
 		}
 		_ = t
-		return &Val{T: x.Type(), A: []string{tr.elem(base.one(), idx)}}
+		return &Val{T: x.Type(), A: []string{tr.at(base.one(), "0", idx)}}
 	}
 	return tr.freshVal(x.Type(), "idxaddr")
 }
@@ -1209,8 +1238,7 @@ func (tr *FnCtx) mapGet(st *State, mt types.Type, m, k string) (*Val, string) {
 	atoms := tr.W.flatten(mu.Elem())
 	for i, c := range tr.W.mapValComps(mt) {
 		raw := sel(sel(tr.cur(st, c), m), k)
-		t := ite(inS, raw, zeroOf(atoms[i].Sort))
-		v.A = append(v.A, tr.define(tr.fresh("mv"), atoms[i].Sort, t))
+		v.A = append(v.A, tr.define(tr.fresh("mv"), atoms[i].Sort, raw))
 	}
 	return v, inS
 }
@@ -1267,6 +1295,11 @@ func (tr *FnCtx) mapDelete(st *State, mt types.Type, m, k string) {
 	tr.set(st, dc, store(d, m, newDom))
 	tr.assume(eq("(card "+newDom+")", sub("(card "+oldDom+")", ite(sel(oldDom, k), "1", "0"))))
 	tr.assume("(>= (card " + newDom + ") 0)")
+	atoms := tr.W.flatten(mt.Underlying().(*types.Map).Elem())
+	for i, c := range tr.W.mapValComps(mt) {
+		a := tr.cur(st, c)
+		tr.set(st, c, store(a, m, store(sel(a, m), k, zeroOf(atoms[i].Sort))))
+	}
 }
 
 func (tr *FnCtx) mapUpdate(st *State, x *ssa.MapUpdate) {
@@ -1284,6 +1317,10 @@ func (tr *FnCtx) makeMap(st *State, x *ssa.MakeMap) *Val {
 	m := tr.newObj(st)
 	dc := tr.W.mapDomComp(x.Type())
 	tr.set(st, dc, store(tr.cur(st, dc), m, "((as const (Array Int Bool)) false)"))
+	atoms := tr.W.flatten(x.Type().Underlying().(*types.Map).Elem())
+	for i, c := range tr.W.mapValComps(x.Type()) {
+		tr.set(st, c, store(tr.cur(st, c), m, "((as const (Array Int "+atoms[i].Sort+")) "+zeroOf(atoms[i].Sort)+")"))
+	}
 	return &Val{T: x.Type(), A: []string{m}}
 }
 
